@@ -72,3 +72,22 @@ Example C09_flag_restored_nonvacuous :
                               (mk_rst true true false [] true) in
   icpt s' = true /\ active s' = false /\ o = OVal (VInt 1) /\ length l = 4%nat.
 Proof. vm_compute. repeat split; reflexivity. Qed.
+
+(** Racing threads (model Recorder/Threads.v, see C04/C05): under ANY schedule of any number of threads calling the
+    recorder's methods, at every moment at which the recording is no longer active the shared part of the recorder is
+    idle - its parameters are gone and forced sampling is off - so nothing of the ended recording leaks into the next
+    one, whichever thread ended it and whatever the others were doing. *)
+From Playback Require Import Recorder.Threads Recorder.ThreadsFacts.
+Theorem C09_idle_after_any_interleaving :
+  forall n sched,
+  let '(sh, _) := run Fixed sched (sh0, List.repeat idle_thread n) in
+  ar sh = false -> ap sh = false /\ fs sh = false.
+Proof. exact fixed_idle_when_gone. Qed.
+Print Assumptions C09_idle_after_any_interleaving.
+
+(** non-vacuity: forced sampling racing with a discard - the recording ends, the flag does not survive it *)
+Example C09_race_example :
+  let '(sh, _) := run Fixed [ABegin 0 MForce; ABegin 1 MDiscard; AStep 1; AStep 0; AStep 1]
+                      (sh0, List.repeat idle_thread 2) in
+  ar sh = false /\ ap sh = false /\ fs sh = false /\ fin sh = 1%nat.
+Proof. vm_compute. repeat split; reflexivity. Qed.
